@@ -45,7 +45,10 @@ func runSolverCtx(ctx context.Context, sp solverSpec, file string, sec int) solv
 }
 
 // race runs the solvers concurrently on the same file. all=false: returns as soon as one gives a
-// definitive answer (the others are cancelled); all=true: waits for every solver.
+// definitive answer (the others are cancelled); all=true: after the first definitive answer the
+// other solvers get a grace period of graceSec seconds to confirm or contradict it.
+const graceSec = 15
+
 func race(sps []solverSpec, file string, sec int, all bool) []solverAnswer {
 	ctx, cancel := context.WithCancel(context.Background())
 	defer cancel()
@@ -55,12 +58,23 @@ func race(sps []solverSpec, file string, sec int, all bool) []solverAnswer {
 		go func() { ch <- runSolverCtx(ctx, sp, file, sec) }()
 	}
 	var out []solverAnswer
-	for range sps {
-		a := <-ch
-		out = append(out, a)
-		if !all && (a.status == "unsat" || a.status == "sat") {
+	var grace <-chan time.Time
+	for len(out) < len(sps) {
+		select {
+		case a := <-ch:
+			out = append(out, a)
+			if a.status == "unsat" || a.status == "sat" {
+				if !all {
+					cancel()
+					return out
+				}
+				if grace == nil {
+					grace = time.After(graceSec * time.Second)
+				}
+			}
+		case <-grace:
 			cancel()
-			break
+			return out
 		}
 	}
 	return out
@@ -101,10 +115,10 @@ func solveOne(r *Result, dir string, i int, sec int, two bool) {
 	for _, a := range race([]solverSpec{solvers[0], solvers[1]}, file, sec, two) {
 		note(a)
 	}
-	need := 1
-	if two {
-		need = 2
-	}
+	// One sound "unsat" discharges an obligation. two=true (thorough tier) additionally asks the other
+	// solver for confirmation (recorded as second_solver, counted in the evidence); an unconfirmed
+	// proof stays a proof, a contradicting "sat" is a solver disagreement and is reported.
+	const need = 1
 	var candidate *solverAnswer
 	// 2. relaxation without quantified assumptions (sound for unsat; sat is only a candidate)
 	if len(unsatBy) < need && satAns == nil && r.ScriptQF != "" {
